@@ -642,7 +642,9 @@ def r06_11(prog, rep):
             elif cn.endswith('CompressorWriter::with_params') and len(b.term.args) == 3:
                 pe = deref_expr(body, expr_of(body, b.term.args[2]))
                 agg = None
-                if pe[0] in ('ref', 'place'):
+                if pe[0] == 'agg' and (pe[3].j.get('adt') or '').endswith('BrotliEncoderParams'):
+                    agg = pe[3]
+                elif pe[0] in ('ref', 'place'):
                     for (dbb, dsi, dk, dobj) in body.defs.get(pe[1][0], []):
                         if dk == 'assign' and dobj.rv.r == 'aggregate' and (dobj.rv.j.get('adt') or '').endswith('BrotliEncoderParams'):
                             agg = dobj.rv if agg is None else False
